@@ -165,7 +165,9 @@ int main(int argc, char** argv) {
         dumpf(fo, "in", (*w.in)->getData(), N);
         m->apply();
         dumpf(fo, "out", (*w.out)->getData(), N);
-        if (in.has("pos")) { auto p = in.fv("pos"); for (size_t i = 0; i + 1 < p.size(); i += 2) { PhaseSpace::Position q{p[i], p[i+1]}; m->applyTo(q); float r[2] = {q.x, q.y}; dumpf(fo, "posout", r, 2); } }
+        if (in.has("pos")) { auto p = in.fv("pos"); for (size_t i = 0; i + 1 < p.size(); i += 2) { PhaseSpace::Position q{p[i], p[i+1]};
+            if (what == "fp" && c.fptrack == 3) { auto fpm = static_cast<FokkerPlanckMap*>(m); auto g = fpm->_prng; auto d = fpm->_normdist; float nz[2] = {d(g), fpm->_dampdecr}; dumpf(fo, "noise", nz, 2); }   // the draw the next applyTo will make (copies of generator and distribution)
+            m->applyTo(q); float r[2] = {q.x, q.y}; dumpf(fo, "posout", r, 2); } }
         fclose(fo);
         return 0;
     }
